@@ -759,6 +759,8 @@ func RunC07(r *mon.Run) {
 	}
 	// the same precedence over the WebSocket transport
 	runWS(r, g)
+	// overlapping requests for the same binding
+	runConcC07(r, g)
 }
 
 // bytesTextVariant re-spells the canonical base64 text of a bytes capture:
